@@ -891,6 +891,340 @@ theorem repeat_request_same_next (c : Clock) (ids : List Nat) (mods : Nat → Li
     unfold updSim
     simp only [needsUpdate, List.contains_eq_mem, hiff, hnow.2.2.1, hnow.2.2.2.1, hnow.2.2.2.2]
 
+/-! ### 8. Re-entrancy and faults: user code acting inside `step_forward` (lesson 16)
+
+`stepForwardRe c mods calls`: `step_forward` when the registered modifiers – besides answering `mods` – call
+`move_simulants_to_end` themselves and / or raise (`calls`, registration order). Everything above is about
+`stepForward`, the update that completes; the theorems below tie the two together and say what happens to requests
+made at ANY point of an update and what a failed update leaves behind. -/
+
+/-- no modifier touches the clock, every pending label has a row: `stepForwardRe` is `stepForward` -/
+theorem stepForwardRe_nil (c : Clock) (mods : Nat → List (Option Nat)) (hk : c.snooze.all (knows c) = true) :
+    stepForwardRe c mods [] = (stepForward c mods, .done) := by
+  rcases stepForwardRe_cases c mods [] with ⟨_, _, h⟩ | ⟨_, hn, _⟩ | ⟨_, hr, _⟩ | ⟨_, _, _, h⟩ | ⟨_, _, hl, _⟩
+  · exact h
+  · rw [hk] at hn; cases hn
+  · simp [evalCalls] at hr
+  · simpa [evalCalls] using h
+  · simp only [evalCalls] at hl
+    rw [locOk_self c hk] at hl; cases hl
+
+/-- a completed update during which modifiers made requests IS the update that follows the same requests made by
+listeners just before it: every theorem about `iterate` / `Steps` applies to it -/
+theorem stepForwardRe_done_is_iterate (c : Clock) (mods : Nat → List (Option Nat)) (calls : List ModCall)
+    (hev : Evaluated c) (hd : (stepForwardRe c mods calls).2 = .done) :
+    (stepForwardRe c mods calls).1 = iterate c (calls.map fun m => Act.toEnd m.req) mods := by
+  rcases stepForwardRe_cases c mods calls with ⟨hne, _, _⟩ | ⟨_, _, h⟩ | ⟨_, _, h⟩ | ⟨_, hr, _, h⟩ | ⟨_, _, _, h⟩
+  · exact absurd hev hne
+  · rw [h] at hd; cases hd
+  · rw [h] at hd; cases hd
+  · rw [h]; simp only [iterate]; rw [evalCalls_as_acts c calls hr]
+  · rw [h] at hd; cases hd
+
+/-- when the pipeline is not evaluated (nobody to update) the modifiers cannot act: the update is `stepForward` -/
+theorem stepForwardRe_not_evaluated (c : Clock) (mods : Nat → List (Option Nat)) (calls : List ModCall)
+    (hne : ¬ Evaluated c) (hk : c.sims.isEmpty = true ∨ c.snooze.all (knows c) = true) :
+    stepForwardRe c mods calls = (stepForward c mods, .done) := by
+  rcases stepForwardRe_cases c mods calls with ⟨_, _, h⟩ | ⟨he, hn, _⟩ | ⟨hev, _⟩ | ⟨hev, _⟩ | ⟨hev, _⟩
+  · exact h
+  · rcases hk with hk | hk
+    · rw [he] at hk; cases hk
+    · rw [hk] at hn; cases hn
+  · exact absurd hev hne
+  · exact absurd hev hne
+  · exact absurd hev hne
+
+/-- **a request made at any point of an update is honoured by that update**: whether it was pending before
+(listeners of the four events, an initializer during a birth) or is made from inside a step-size modifier while the
+pipeline is evaluated – by any of the modifiers, for a part of the update index or all of it – the simulant is parked
+at `stop + minStep` when the update completes -/
+theorem request_any_time_parked (c : Clock) (mods : Nat → List (Option Nat)) (calls : List ModCall) (i : Nat)
+    (hev : Evaluated c) (hd : (stepForwardRe c mods calls).2 = .done) (hi : i ∈ c.snooze ∨ i ∈ made calls) :
+    Parked (stepForwardRe c mods calls).1 i := by
+  rcases stepForwardRe_cases c mods calls with ⟨hne, _, _⟩ | ⟨_, _, h⟩ | ⟨_, _, h⟩ | ⟨_, _, _, h⟩ | ⟨_, _, _, h⟩
+  · exact absurd hev hne
+  · rw [h] at hd; cases hd
+  · rw [h] at hd; cases hd
+  · rw [h]; exact moved_to_end_parked _ mods i ((mem_evalCalls c calls i).mpr hi)
+  · rw [h] at hd; cases hd
+
+/-- … and the pending set is empty afterwards: nothing is carried into the next update, nothing is processed twice -/
+theorem request_any_time_cleared (c : Clock) (mods : Nat → List (Option Nat)) (calls : List ModCall)
+    (hev : Evaluated c) (hd : (stepForwardRe c mods calls).2 = .done) : (stepForwardRe c mods calls).1.snooze = [] := by
+  rcases stepForwardRe_cases c mods calls with ⟨hne, _, _⟩ | ⟨_, _, h⟩ | ⟨_, _, h⟩ | ⟨_, _, _, h⟩ | ⟨_, _, _, h⟩
+  · exact absurd hev hne
+  · rw [h] at hd; cases hd
+  · rw [h] at hd; cases hd
+  · rw [h]
+    obtain ⟨sn, hsn⟩ := evalCalls_eq c calls
+    have hne : (evalCalls c calls).1.sims ≠ [] := by
+      rw [hsn]; intro h0; have := hev.1; simp only at h0; rw [h0] at this; cases this
+    obtain ⟨m, _, heq⟩ := stepForward_nonempty (evalCalls c calls).1 mods hne
+    rw [heq]
+    have hany : (evalCalls c calls).1.sims.any (needsUpdate (evalCalls c calls).1
+        ((evalCalls c calls).1.now + (evalCalls c calls).1.step)) = true := by
+      have h3 := hev.2.2
+      rw [List.any_eq_true] at h3 ⊢
+      obtain ⟨s, hs, hn⟩ := h3
+      refine ⟨s, by rw [hsn]; exact hs, ?_⟩
+      simp only [needsUpdate, Bool.or_eq_true] at hn ⊢
+      rcases hn with hn | hn
+      · left; rw [hsn]; exact hn
+      · right
+        have : s.id ∈ (evalCalls c calls).1.snooze :=
+          (mem_evalCalls c calls s.id).mpr (Or.inl (by simpa using hn))
+        simpa using this
+    simp only [hany, ↓reduceIte]
+  · rw [h] at hd; cases hd
+
+/-- **a failed update touches nothing but the clock**: whichever way `step_forward` fails – a pending label without
+a row, a modifier that raises, a request from inside a modifier for a simulant that is not being updated – nobody's
+next-event time or step changes, the global step is the old one, and the clock has moved by it -/
+theorem failed_update_touches_only_clock (c : Clock) (mods : Nat → List (Option Nat)) (calls : List ModCall)
+    (hf : (stepForwardRe c mods calls).2 ≠ .done) :
+    (stepForwardRe c mods calls).1.sims = c.sims ∧ (stepForwardRe c mods calls).1.step = c.step ∧
+    (stepForwardRe c mods calls).1.now = c.now + c.step ∧ (stepForwardRe c mods calls).1.stop = c.stop ∧
+    (stepForwardRe c mods calls).1.minStep = c.minStep ∧ (stepForwardRe c mods calls).1.stdStep = c.stdStep := by
+  obtain ⟨sn, hsn⟩ := evalCalls_eq c calls
+  rcases stepForwardRe_cases c mods calls with ⟨_, _, h⟩ | ⟨_, _, h⟩ | ⟨_, _, h⟩ | ⟨_, _, _, h⟩ | ⟨_, _, _, h⟩
+  · rw [h] at hf; exact absurd rfl hf
+  · rw [h]; simp [failedAt]
+  · rw [h, hsn]; simp [failedAt]
+  · rw [h] at hf; exact absurd rfl hf
+  · rw [h, hsn]; simp [failedAt]
+
+/-- **no request is lost by a failed update**: what was pending stays pending, and what the modifiers requested before
+the exception is pending too – to be honoured by the next update that completes -/
+theorem failed_update_keeps_requests (c : Clock) (mods : Nat → List (Option Nat)) (calls : List ModCall) (i : Nat)
+    (hf : (stepForwardRe c mods calls).2 ≠ .done) :
+    (i ∈ c.snooze → i ∈ (stepForwardRe c mods calls).1.snooze) ∧
+    ((stepForwardRe c mods calls).2 ≠ .popError → i ∈ made calls → i ∈ (stepForwardRe c mods calls).1.snooze) := by
+  rcases stepForwardRe_cases c mods calls with ⟨_, _, h⟩ | ⟨_, _, h⟩ | ⟨_, _, h⟩ | ⟨_, _, _, h⟩ | ⟨_, _, _, h⟩
+  · rw [h] at hf; exact absurd rfl hf
+  · rw [h]; exact ⟨fun hi => by simpa [failedAt] using hi, fun hp => absurd rfl hp⟩
+  · rw [h]
+    exact ⟨fun hi => by simpa [failedAt] using (mem_evalCalls c calls i).mpr (Or.inl hi),
+           fun _ hi => by simpa [failedAt] using (mem_evalCalls c calls i).mpr (Or.inr hi)⟩
+  · rw [h] at hf; exact absurd rfl hf
+  · rw [h]
+    exact ⟨fun hi => by simpa [failedAt] using (mem_evalCalls c calls i).mpr (Or.inl hi),
+           fun _ hi => by simpa [failedAt] using (mem_evalCalls c calls i).mpr (Or.inr hi)⟩
+
+/-- … indeed: the caller catches the exception and steps again; as soon as an update completes, every simulant that
+has a row and was requested before or during the failed update is parked (whatever the modifiers answer, request or
+do this time) -/
+theorem failed_then_retry_honours (c : Clock) (mods mods' : Nat → List (Option Nat)) (calls calls' : List ModCall) (i : Nat)
+    (hf : (stepForwardRe c mods calls).2 ≠ .done)
+    (hi : i ∈ c.snooze ∨ ((stepForwardRe c mods calls).2 ≠ .popError ∧ i ∈ made calls))
+    (hk : knows c i = true)
+    (hd : (stepForwardRe (stepForwardRe c mods calls).1 mods' calls').2 = .done) :
+    Parked (stepForwardRe (stepForwardRe c mods calls).1 mods' calls').1 i := by
+  have hkeep := failed_update_keeps_requests c mods calls i hf
+  have hpend : i ∈ (stepForwardRe c mods calls).1.snooze := by
+    rcases hi with hi | ⟨hp, hi⟩
+    · exact hkeep.1 hi
+    · exact hkeep.2 hp hi
+  have hsame := failed_update_touches_only_clock c mods calls hf
+  have hk' : knows (stepForwardRe c mods calls).1 i = true := by
+    simpa [knows, hsame.1] using hk
+  have hne : (stepForwardRe c mods calls).1.sims.isEmpty = false := by
+    rw [hsame.1]
+    simp only [knows, List.any_eq_true] at hk
+    obtain ⟨s, hs, _⟩ := hk
+    cases hc : c.sims with
+    | nil => rw [hc] at hs; cases hs
+    | cons a as => rfl
+  have hev : Evaluated (stepForwardRe c mods calls).1 := by
+    refine ⟨hne, ?_, pending_known_updates _ _ i hpend hk'⟩
+    -- a retry that completes cannot have met a pending label without a row
+    rcases stepForwardRe_cases (stepForwardRe c mods calls).1 mods' calls' with
+      ⟨_, hor, _⟩ | ⟨_, _, h⟩ | ⟨hev, _⟩ | ⟨hev, _⟩ | ⟨hev, _⟩
+    · rcases hor with hor | hor
+      · rw [hne] at hor; cases hor
+      · exact hor
+    · rw [h] at hd; cases hd
+    · exact hev.2.1
+    · exact hev.2.1
+    · exact hev.2.1
+  exact request_any_time_parked _ mods' calls' i hev hd (Or.inl hpend)
+
+/-- everything a simulation can do to its clock when user code acts inside `step_forward` and callers catch what it
+raises: births and requests (a listener that raises merely ends its iteration early – the actions performed so far
+stand, no update follows), updates that complete (with requests from inside the modifiers), updates that fail.
+The flag says whether an update has completed since the last failed one. -/
+inductive RSteps : Clock → Clock → Bool → Prop
+  | refl (c : Clock) : RSteps c c true
+  | act {c c' : Clock} {b : Bool} (a : Act) : RSteps c c' b → RSteps c (act c' a) b
+  | step {c c' : Clock} {b : Bool} (mods : Nat → List (Option Nat)) (calls : List ModCall) : RSteps c c' b →
+      c'.now < c'.stop → (stepForwardRe c' mods calls).2 = .done → RSteps c (stepForwardRe c' mods calls).1 true
+  | fail {c c' : Clock} {b : Bool} (mods : Nat → List (Option Nat)) (calls : List ModCall) : RSteps c c' b →
+      c'.now < c'.stop → (stepForwardRe c' mods calls).2 ≠ .done → RSteps c (stepForwardRe c' mods calls).1 false
+
+/-- the invariant with faults: after a completed update `J` as before; after a failed one only "the global step is
+positive" is left (the clock sits ON the next-event time of the simulants that were due) -/
+def RInv (c : Clock) (b : Bool) : Prop := Cfg c ∧ (c.now < c.stop → if b then J c else 0 < c.step)
+
+theorem evalCalls_J (c : Clock) (calls : List ModCall) (hJ : J c) : J (evalCalls c calls).1 := by
+  obtain ⟨sn, h⟩ := evalCalls_eq c calls
+  rw [h]; exact hJ
+
+theorem rsteps_RInv {c c' : Clock} {b : Bool} (h : RSteps c c' b) (hi : Inv c) :
+    RInv c' b ∧ c'.stop = c.stop ∧ c'.minStep = c.minStep ∧ c'.stdStep = c.stdStep := by
+  induction h with
+  | refl => exact ⟨⟨hi.1, fun hr => by simpa using hi.2 hr⟩, rfl, rfl, rfl⟩
+  | @act c' b a _ ih =>
+    obtain ⟨⟨hc, hj⟩, h1, h2, h3⟩ := ih
+    refine ⟨⟨by simpa [Cfg] using hc, ?_⟩, by simp [h1], by simp [h2], by simp [h3]⟩
+    intro hrun
+    simp only [act_now, act_stop] at hrun
+    have := hj hrun
+    cases b
+    · simpa using this
+    · simp only [↓reduceIte] at this ⊢; exact act_J _ a this
+  | @step c' b mods calls _ hrun hd ih =>
+    obtain ⟨⟨hc, hj⟩, h1, h2, h3⟩ := ih
+    have hpos : 0 < c'.step := by
+      have := hj hrun
+      cases b
+      · simpa using this
+      · simp only [↓reduceIte] at this; exact this.2.2
+    obtain ⟨sn, hsn⟩ := evalCalls_eq c' calls
+    -- a completed update is `stepForward` of a clock that differs from c' in the pending set only
+    have key : ∃ x : Clock, (stepForwardRe c' mods calls).1 = stepForward x mods ∧ x.sims = c'.sims ∧ x.now = c'.now ∧
+        x.step = c'.step ∧ x.stop = c'.stop ∧ x.minStep = c'.minStep ∧ x.stdStep = c'.stdStep := by
+      rcases stepForwardRe_cases c' mods calls with ⟨_, _, h⟩ | ⟨_, _, h⟩ | ⟨_, _, h⟩ | ⟨_, _, _, h⟩ | ⟨_, _, _, h⟩
+      · exact ⟨c', by rw [h], rfl, rfl, rfl, rfl, rfl, rfl⟩
+      · rw [h] at hd; cases hd
+      · rw [h] at hd; cases hd
+      · exact ⟨(evalCalls c' calls).1, by rw [h], by rw [hsn], by rw [hsn], by rw [hsn], by rw [hsn], by rw [hsn], by rw [hsn]⟩
+      · rw [h] at hd; cases hd
+    obtain ⟨x, hx, x1, x2, x3, x4, x5, x6⟩ := key
+    rw [hx]
+    have hcx : Cfg x := by unfold Cfg; rw [x5, x6]; exact hc
+    refine ⟨⟨by simpa [Cfg, x5, x6] using hc, ?_⟩, by simp [x4, h1], by simp [x5, h2], by simp [x6, h3]⟩
+    intro hrun'
+    simp only [stepForward_now, stepForward_stop] at hrun'
+    simp only [↓reduceIte]
+    by_cases he : x.sims = []
+    · rw [stepForward_empty x mods he]
+      exact ⟨by intro s hs; simp [he] at hs, fun hne => absurd he hne, by rw [x3]; exact hpos⟩
+    · exact stepForward_J_nonempty x mods hcx he (by have := hc.1; rw [x5] ; omega)
+  | @fail c' b mods calls _ hrun hf ih =>
+    obtain ⟨⟨hc, hj⟩, h1, h2, h3⟩ := ih
+    have hpos : 0 < c'.step := by
+      have := hj hrun
+      cases b
+      · simpa using this
+      · simp only [↓reduceIte] at this; exact this.2.2
+    obtain ⟨_, f2, _, f4, f5, f6⟩ := failed_update_touches_only_clock c' mods calls hf
+    refine ⟨⟨by unfold Cfg; rw [f5, f6]; exact hc, ?_⟩, by rw [f4, h1], by rw [f5, h2], by rw [f6, h3]⟩
+    intro _
+    simp only [Bool.false_eq_true, ↓reduceIte]
+    rw [f2]; exact hpos
+
+/-- `reachable_J_re`: with requests from inside modifiers, modifiers and listeners that raise and callers that catch,
+in every state reached from `initialize_simulants` in which the main loop emits an event and the last clock update
+COMPLETED, the invariant holds – so `active_exact`, `advance_to_earliest`, `never_passed` apply there exactly as
+without faults. (After a failed update they do not: the clock has moved, the simulants that were due were not
+rescheduled and the global step is stale until the next update completes – see the report.) -/
+theorem reachable_J_re (start stop minStep std : Int) (n : Nat) (mods0 : Nat → List (Option Nat)) (c : Clock)
+    (hm : 0 < minStep) (hstd : 0 ≤ std)
+    (h : RSteps (initSims (configure start stop minStep std) n mods0) c true) (hrun : c.now < c.stop) : J c := by
+  have := (rsteps_RInv h (initSims_Inv start stop minStep std n mods0 hm hstd)).1.2 hrun
+  simpa using this
+
+/-- the event of such a state is exact: exactly the simulants sitting on the event time, nobody earlier, the event
+time is the earliest pending next-event time and the clock moves exactly there -/
+theorem reachable_event_exact_re (start stop minStep std : Int) (n : Nat) (mods0 : Nat → List (Option Nat)) (c : Clock)
+    (hm : 0 < minStep) (hstd : 0 ≤ std)
+    (h : RSteps (initSims (configure start stop minStep std) n mods0) c true) (hrun : c.now < c.stop) :
+    (∀ i, i ∈ active c ↔ ∃ s ∈ c.sims, s.id = i ∧ s.next = eventTime c) ∧
+    (∀ s ∈ c.sims, eventTime c ≤ s.next) ∧
+    (c.sims ≠ [] → minOpt (c.sims.map (·.next)) = some (eventTime c)) ∧
+    (∀ mods calls, (stepForwardRe c mods calls).1.now = eventTime c) := by
+  have hJ := reachable_J_re start stop minStep std n mods0 c hm hstd h hrun
+  refine ⟨active_exact c hJ, hJ.1, ?_, ?_⟩
+  · intro hne
+    have := advance_to_earliest c (fun _ => []) hJ hne
+    simpa [eventTime] using this
+  · intro mods calls
+    obtain ⟨sn, hsn⟩ := evalCalls_eq c calls
+    rcases stepForwardRe_cases c mods calls with ⟨_, _, h⟩ | ⟨_, _, h⟩ | ⟨_, _, h⟩ | ⟨_, _, _, h⟩ | ⟨_, _, _, h⟩ <;> rw [h]
+    · simp [eventTime]
+    · simp [failedAt, eventTime]
+    · simp [failedAt, eventTime]
+    · simp only [stepForward_now, eventTime]; rw [hsn]
+    · simp [failedAt, eventTime]
+
+/-- **`moved_to_end_excluded_re`**: once an update has completed that was preceded or accompanied by a request for
+simulant `i` – from a listener, an initializer, or from inside a step-size modifier during that very update – then
+along EVERY continuation (births, requests, updates that complete, updates that fail, listeners that raise), no
+main-loop event with event time at or before the stop time includes `i`. -/
+theorem moved_to_end_excluded_re (c d : Clock) (b : Bool) (mods : Nat → List (Option Nat)) (calls : List ModCall) (i : Nat)
+    (hc : Cfg c) (hk : i < c.sims.length) (hev : Evaluated c) (hd : (stepForwardRe c mods calls).2 = .done)
+    (hi : i ∈ c.snooze ∨ i ∈ made calls)
+    (h : RSteps (stepForwardRe c mods calls).1 d b) (hrun : d.now < d.stop) (hevt : eventTime d ≤ d.stop) :
+    i ∉ active d := by
+  have hit := stepForwardRe_done_is_iterate c mods calls hev hd
+  have hconst : (stepForwardRe c mods calls).1.stop = c.stop ∧ (stepForwardRe c mods calls).1.minStep = c.minStep ∧
+      i < (stepForwardRe c mods calls).1.sims.length := by
+    rw [hit]
+    have a1 := acts_now_stop c (calls.map fun m => Act.toEnd m.req)
+    have a2 := acts_consts c (calls.map fun m => Act.toEnd m.req)
+    obtain ⟨sn, hsn⟩ := evalCalls_eq c calls
+    refine ⟨by simp only [iterate, stepForward_stop]; exact a1.2, by simp only [iterate, stepForward_minStep]; exact a2.2.1, ?_⟩
+    rcases stepForwardRe_cases c mods calls with ⟨hne, _, _⟩ | ⟨_, _, h⟩ | ⟨_, _, h⟩ | ⟨_, hr, _, h⟩ | ⟨_, _, _, h⟩
+    · exact absurd hev hne
+    · rw [h] at hd; cases hd
+    · rw [h] at hd; cases hd
+    · rw [← hit, h, stepForward_sims, List.length_map, hsn]; exact hk
+    · rw [h] at hd; cases hd
+  have key : ∀ d b, RSteps (stepForwardRe c mods calls).1 d b →
+      (d.stop = c.stop ∧ d.minStep = c.minStep ∧ i < d.sims.length) ∧ (d.now < d.stop → Parked d i) := by
+    intro d b hd'
+    induction hd' with
+    | refl => exact ⟨hconst, fun _ => request_any_time_parked c mods calls i hev hd hi⟩
+    | @act d' b' a _ ih =>
+      obtain ⟨⟨h1, h2, h4⟩, h5⟩ := ih
+      refine ⟨⟨by simp [h1], by simp [h2], ?_⟩, ?_⟩
+      · cases a with
+        | birth k => simp only [act, create, List.length_append]; omega
+        | toEnd ids => simpa [act] using h4
+      · intro hr
+        simp only [act_now, act_stop] at hr
+        exact parked_act _ a i h4 (h5 hr)
+    | @step d' b' m cs _ hr hdone ih =>
+      obtain ⟨⟨h1, h2, h4⟩, h5⟩ := ih
+      obtain ⟨sn, hsn⟩ := evalCalls_eq d' cs
+      have key2 : ∃ x : Clock, (stepForwardRe d' m cs).1 = stepForward x m ∧ x.sims = d'.sims ∧ x.now = d'.now ∧
+          x.step = d'.step ∧ x.stop = d'.stop ∧ x.minStep = d'.minStep := by
+        rcases stepForwardRe_cases d' m cs with ⟨_, _, h⟩ | ⟨_, _, h⟩ | ⟨_, _, h⟩ | ⟨_, _, _, h⟩ | ⟨_, _, _, h⟩
+        · exact ⟨d', by rw [h], rfl, rfl, rfl, rfl, rfl⟩
+        · rw [h] at hdone; cases hdone
+        · rw [h] at hdone; cases hdone
+        · exact ⟨(evalCalls d' cs).1, by rw [h], by rw [hsn], by rw [hsn], by rw [hsn], by rw [hsn], by rw [hsn]⟩
+        · rw [h] at hdone; cases hdone
+      obtain ⟨x, hx, x1, x2, x3, x4, x5⟩ := key2
+      rw [hx]
+      refine ⟨⟨by simp [x4, h1], by simp [x5, h2], ?_⟩, ?_⟩
+      · rw [stepForward_sims, List.length_map, x1]; exact h4
+      · intro hr'
+        simp only [stepForward_now, stepForward_stop] at hr'
+        have hm : 0 < c.minStep := hc.1
+        have hpx : Parked x i := by
+          intro s hs hid
+          rw [x1] at hs; rw [x4, x5]; exact h5 hr s hs hid
+        exact parked_step x m i hpx (by rw [x5, h2]; omega)
+    | @fail d' b' m cs _ hr hfail ih =>
+      obtain ⟨⟨h1, h2, h4⟩, h5⟩ := ih
+      obtain ⟨f1, _, _, f4, f5, _⟩ := failed_update_touches_only_clock d' m cs hfail
+      refine ⟨⟨by rw [f4, h1], by rw [f5, h2], by rw [f1]; exact h4⟩, ?_⟩
+      intro _ s hs hid
+      rw [f1] at hs; rw [f4, f5]
+      exact h5 hr s hs hid
+  obtain ⟨⟨_, h2, _⟩, h5⟩ := key d b h
+  exact parked_not_active d i (by rw [h2]; exact hc.1) (h5 hrun) hevt
+
 /-! ### Non-vacuity: the hypotheses are inhabited, the statements bite -/
 
 /-- three simulants, minimum step 24 h, no standard step, one modifier asking 72 / nothing / 50 hours -/
@@ -942,5 +1276,26 @@ example : moveToEnd (moveToEnd demo [0]) [0] = moveToEnd demo [0] ∧
     (iterate (iterate demo [.toEnd [0]] (fun _ => [none])) [] (fun _ => [none])).sims.map (·.next) := by decide
 example : (runLoop demo [([], fun _ => [some 24]), ([.birth 1], fun _ => [some 48])]).2 =
     [(0, 24, [1]), (24, 48, [1, 2])] := by decide
+
+/-- lesson 16, the experiment on the real code: four simulants with steps 48 / 72 / 24 / 96 h; at the first update
+(clock 24 h) only simulant 2 is updated. A request for {2} made from INSIDE the modifier is honoured by that update … -/
+def demo4 : Clock := initSims (configure 0 288 24 0) 4 (fun i => [[some 48], [some 72], [some 24], [some 96]].getD i [])
+def mods4 : Nat → List (Option Nat) := fun i => [[some 48], [some 72], [some 24], [some 96]].getD i []
+example : Evaluated demo4 := ⟨by decide, by decide, by decide⟩
+example : stepForwardRe demo4 mods4 [{ req := [2] }] =
+    ({ demo4 with now := 24, sims := [⟨0, 48, 48⟩, ⟨1, 72, 72⟩, ⟨2, 312, 288⟩, ⟨3, 96, 96⟩] }, .done) := by decide
+/-- … a request for {0}, who is not being updated, raises `KeyError` in `.loc`: the clock has moved, nothing else, and
+the request stays pending; the caller steps again and the next update parks simulant 0 … -/
+example : stepForwardRe demo4 mods4 [{ req := [0] }] = ({ demo4 with now := 24, snooze := [0] }, .keyError) := by decide
+example : (stepForwardRe (stepForwardRe demo4 mods4 [{ req := [0] }]).1 mods4 []).1.sims =
+    [⟨0, 312, 264⟩, ⟨1, 72, 72⟩, ⟨2, 72, 24⟩, ⟨3, 96, 96⟩] := by decide
+/-- … and a modifier that raises after the first one made its request leaves that request pending as well -/
+example : stepForwardRe demo4 mods4 [{ req := [2] }, { raises := true }, { req := [3] }] =
+    ({ demo4 with now := 24, snooze := [2] }, .raised) := by decide
+example : made [{ req := [2] }, { req := [1], raises := true, reqFirst := false }, { req := [3] }] = [2] := by decide
+/-- after the failed update the invariant is gone (the clock sits on simulant 2's next-event time, the global step is
+stale) – the flag of `RSteps` is needed: -/
+example : ¬ J (stepForwardRe demo4 mods4 [{ raises := true }]).1 := by
+  intro h; have := h.1 ⟨2, 24, 24⟩ (by decide); revert this; decide
 
 end Viv.Props.C10
